@@ -88,6 +88,14 @@ CHECKS.update({
         technique="Lean 4 proof (parser/printer round trip, rotation and GC invariants) + differential correspondence on the real logger"),
 })
 
+CHECKS.update({
+    "C19": dict(
+        category="proof",
+        text="Partial. Lean 4 model of plot.go's control flow (x range, action lanes, audience boxes and curves, audit curves, mood bands with the skip test, act lines, zoomed copy) and of assemble's range/repeat computation, plus a specification written from the property; theorems model_meets_spec, xrange_margin, lanes, boxes, curves, audit_curves_iff, every_mood_banded (from result_range: the range has positive width), act_lines, zoom_iff_repeat, repeat_start, for all inputs. Generated plays run with the real binary; plots/*.gp are parsed into an abstract plot and compared with the model and the specification, whose input facts are derived independently from the CSV files, result.js and logs.",
+        note="Partial: gnuplot and the rendering are out of scope; floats as exact rationals; curve order is non-deterministic when one expression names several signals (map iteration) - generated plays avoid that shape.",
+        technique="Lean 4 proof (model = specification) + differential comparison of generated plot scripts on real runs"),
+})
+
 NOT_APPLICABLE = [
     {"property_id": "C14", "reason": "data-race freedom is a property of memory accesses under the Go memory model; no executable Lean model compared on values can exhibit an unsynchronised access (DESIGN.md 5/C14)"},
 ]
